@@ -82,3 +82,16 @@ PROPS['C01'] = dict(
     level_note='Trusted: GMP, ref.h, the recursion as transcribed from the definition (itself cross-checked by partition of unity and knot continuity).',
     assumptions=[EXACT, SAN, 'float runs use dyadic knots with |t| <= 8 and gaps >= 1/8 (the well-scaled domain of C16)'],
 )
+
+PROPS['C11'] = dict(
+    units=[dict(target=T('h_valid', parts=2), quick=dict(scale=6.0), thorough=dict(scale=8.0, shards=16))],
+    rule=('valid and invalid arguments in comparable shares for every validating entry point: Grid (vector / iterator pair over vector and list / initializer_list / shared_ptr / null shared_ptr) over sequences of 0..9 values built from an '
+          'increasing base by {nothing, swap two, duplicate one, NaN anywhere, +-inf at the proper end or anywhere, +0/-0 pair, denormal gaps, DBL_MAX / nextafter(1)}; Support(grid,s,e) over s,e in [0,n+2] and SIZE_MAX-k; '
+          'Spline(support, coefficients) with every count 0..n+1 on empty/point/interval windows; BSplineGenerator(knots), BSplineGenerator(knots, grid) with matching and four kinds of non-matching grid, generateBSplines<p> (p=0..4, 0..p+4 knots, repeated knots, inversions, NaN); '
+          'linearCombination over (#coefficients,#splines) in 0..4 squared, three overloads; interpolate (exact solver and bundled Eigen solver) over window sizes 0..5 x ordinate counts 0..5 x boundary derivative orders 0..order+2. '
+          'Oracle: accepted IFF valid by a predicate transcribed from the statement; every refusal must be BSplineException. Non-trivial: invalid with exactly one defect / one-off count, or valid at a boundary (n=2, (0,0), end==size, m=p+1, special values).'),
+    technique='rapidcheck generation of valid/invalid arguments against independent validity predicates (accept-iff-valid, exception type)',
+    level_text='Generated-input search in both directions (invalid refused, valid accepted) with defects placed at generated positions and special floating-point values; sampling, not proof.',
+    level_note='Trusted: the validity predicates in h_valid.cpp (DESIGN 6.4). A valid interpolation call whose system is singular counts as accepted (solvability is C12).',
+    assumptions=[SAN, 'Armadillo is not installed: interpolateUsingArmadillo is not exercised'],
+)
